@@ -230,7 +230,7 @@ pub fn generate(tier: &str, rng: &mut Rng) -> Vec<String> {
         v.push(format!("hash {} {}", hex(s.as_bytes()), hex(render_literal(s, rng).as_bytes())));
         v.push(format!("hash {} {}", hex(s.as_bytes()), hex(format!("{:?}", s).replace("\\u{301}", "\u{301}").as_bytes())));
     }
-    for _ in 0..(if thorough { 60_000 } else { 2_500 }) {
+    for _ in 0..(if thorough { 200_000 } else { 2_500 }) {
         let max = if rng.chance(1, 50) { 4096 } else { 200 };
         let s = rand_string(rng, max);
         let lit = render_literal(&s, rng);
